@@ -347,19 +347,20 @@ func (s *Store) Close() error {
 	vhook.At("store.close.run-stopped")
 	cerr := s.Err()
 
-	// Write the primary before the index is flushed and closed. The index
-	// must never reach disk before the primary records it refers to, the same
-	// order that commit uses.
-	_, err := s.index.Primary.Flush()
-	if err != nil {
-		cerr = err
-	}
-	err = s.index.Close()
+	// Close the primary before the index. This writes the primary before the
+	// index is flushed, since the index must never reach disk before the
+	// primary records it refers to. It also stops the primary garbage
+	// collector first: when it relocates a record it updates the index and
+	// puts the old location on the freelist, and an index update made after
+	// the index was closed would be lost, while the freelist entry, written by
+	// the freelist's Close, would survive and condemn a record that the index
+	// on disk still refers to.
+	err := s.index.Primary.Close()
 	if err != nil {
 		cerr = err
 	}
 	vhook.At("store.close.after-index")
-	if err = s.index.Primary.Close(); err != nil {
+	if err = s.index.Close(); err != nil {
 		cerr = err
 	}
 	vhook.At("store.close.after-primary")
